@@ -108,23 +108,24 @@ for _p in ["C01", "C02", "C03", "C04", "C05", "C06", "C10", "C12"]:
     PROPS[_p] = {"level": "model_checking", "conc": True, "assumptions": _A}
 
 
-def _mc(name, expect="ok", timeout=1500, workers=8):
-    return {"spec": "MC_Impl.tla", "cfg": "MC_%s.cfg" % name, "expect": expect, "timeout": timeout, "workers": workers}
+def _mc(name, expect="ok", timeout=1500, workers=8, simulate=0):
+    """simulate > 0: the state space is too large to exhaust; TLC explores that many random behaviours instead (depth 400)"""
+    return {"spec": "MC_Impl.tla", "cfg": "MC_%s.cfg" % name, "expect": expect, "timeout": timeout, "workers": workers, "simulate": simulate}
 
 
 _NEG = [_mc("bug_confirm", "Refines"), _mc("bug_hslot", "Refines"), _mc("bug_nohelp", "Refines"), _mc("bug_nowalk", "Refines")]
 MC.update({
     "C01": {"quick": [_mc("rw1"), _mc("rw1_nf0"), _mc("rw1h_nf0"), _mc("lfsw")] + _NEG,
             "thorough": [_mc("rw1"), _mc("rw1_nf0"), _mc("rw1_nf2"), _mc("rw1h"), _mc("rw1h_nf0"), _mc("lfsw"), _mc("lfsw_nf0"),
-                         _mc("2r1w"), _mc("2r1w_nf0"), _mc("1r2w", timeout=3000), _mc("rculd", timeout=3000)] + _NEG},
+                         _mc("2r1w"), _mc("2r1w_nf0"), _mc("1r2w", simulate=40000, timeout=2400), _mc("rculd", simulate=40000, timeout=2400)] + _NEG},
     "C02": {"quick": [_mc("rw1"), _mc("rw1h"), _mc("lfsw_nf0"), _mc("bug_hslot", "Refines")],
             "thorough": [_mc("rw1"), _mc("rw1h"), _mc("rw1h_nf0"), _mc("lfsw"), _mc("lfsw_nf0"), _mc("2r1w"), _mc("2r1w_nf0"), _mc("rcu2"), _mc("bug_hslot", "Refines")]},
     "C03": {"quick": [_mc("rw1"), _mc("rw1_nf0"), _mc("lfsw"), _mc("2c"), _mc("bug_confirm", "Refines")],
-            "thorough": [_mc("rw1"), _mc("rw1_nf0"), _mc("rw1_nf2"), _mc("lfsw"), _mc("lfsw_nf0"), _mc("2c"), _mc("2c_nf0"), _mc("2r1w"), _mc("2r1w_nf0"), _mc("rculd", timeout=3000), _mc("bug_confirm", "Refines")]},
+            "thorough": [_mc("rw1"), _mc("rw1_nf0"), _mc("rw1_nf2"), _mc("lfsw"), _mc("lfsw_nf0"), _mc("2c"), _mc("2c_nf0"), _mc("2r1w"), _mc("2r1w_nf0"), _mc("rculd", simulate=40000, timeout=2400), _mc("bug_confirm", "Refines")]},
     "C04": {"quick": [_mc("lfsw"), _mc("lfsw_nf0"), _mc("rcust")],
-            "thorough": [_mc("lfsw"), _mc("lfsw_nf0"), _mc("rcust"), _mc("rcu2"), _mc("1r2w", timeout=3000), _mc("1r2w_nf0", timeout=3000)]},
-    "C05": {"quick": [_mc("rcust")], "thorough": [_mc("rcust"), _mc("rcu2"), _mc("rcu2_nf0", timeout=3000), _mc("rculd", timeout=3000)]},
-    "C06": {"quick": [_mc("rcust")], "thorough": [_mc("rcust"), _mc("rcu2"), _mc("rcu2_nf0", timeout=3000), _mc("rculd", timeout=3000)]},
+            "thorough": [_mc("lfsw"), _mc("lfsw_nf0"), _mc("rcust"), _mc("rcu2"), _mc("1r2w", simulate=40000, timeout=2400), _mc("1r2w_nf0", simulate=40000, timeout=2400)]},
+    "C05": {"quick": [_mc("rcust")], "thorough": [_mc("rcust"), _mc("rcu2"), _mc("rcu2_nf0", simulate=40000, timeout=2400), _mc("rculd", simulate=40000, timeout=2400)]},
+    "C06": {"quick": [_mc("rcust")], "thorough": [_mc("rcust"), _mc("rcu2"), _mc("rcu2_nf0", simulate=40000, timeout=2400), _mc("rculd", simulate=40000, timeout=2400)]},
     "C08": {"quick": [_mc("rw1"), _mc("rw1_nf0"), _mc("rw1h"), _mc("rw1h_nf0")],
             "thorough": [_mc("rw1"), _mc("rw1_nf0"), _mc("rw1_nf2"), _mc("rw1h"), _mc("rw1h_nf0"), _mc("2r1w"), _mc("2r1w_nf0")]},
     "C09": {"quick": [_mc("solo_rw1"), _mc("solo_rw1_nf0")],
